@@ -190,6 +190,9 @@ var c13hand = []string{
 	"{a: 1 \"b\": [1, 2]}", "[1 2 3] (hash k: 1)", "0x1F 0o7 0b1 12ULL 1_000", "(f)(g)", "&& || ! **", "/* open", "\"open", "`open", "(open", "[1 {2", "~x ~@y ~(f 1)",
 	"(a \\ -", "(a \\ b", "(a \\", "(a \\ b)", "/* x **/ 1", "/** doc **/ (f)", "{\"k\": 1}", "{\"s\"s\"", "% ", "(f %", "- Inf", "-Inf +Inf", "(list - Inf)",
 	"\"a\\nb\" \"q\\\\\"", "'\\n' '\\''", "(f \"x\\ty\")", "\"tab\\there\"",
+	// dotted pairs whose tail ends in a bracket, a string, a raw string, a character, or is followed by a blank
+	"(a \\ (b c))", "(a \\ [1 2])", "(a \\ \"s\")", "(a \\ `r`)", "(a \\ 'c')", "(a \\ b )", "(a \\ {x})", "(1 \\ (2 \\ (3 \\ nil)))", "((a \\ (b)) \\ [c])", "(a \\ (b c)) d",
+	"%%a", "^~x", "%~@a", "%-Inf", "%- ", "%+", "^^a", "%^~a",
 }
 
 var c13alphabet = []string{"(", ")", "[", "]", "{", "}", "a", "1", "-1", "1e", "0x1", `"s"`, `"s`, "'c'", "`r`", "`", ":", "a:", ":=", "=", ".a", "a.b", "%", "^", "~", "~@", ";", ",", "+", "-", "/", "/*", "*/", "//", "#", "&", "\\", "$", "1e-3", "-"}
